@@ -206,6 +206,14 @@ impl Shared {
         Ok(())
     }
 
+    /// verification-harness hook (feature `verif-hooks`): run one freeze pass synchronously on the
+    /// caller's thread, exactly what the timer thread started by `spawn_freeze` does once per
+    /// `FREEZER_INTERVAL`.
+    #[cfg(feature = "verif-hooks")]
+    pub fn verif_freeze_once(&self) -> Result<(), Error> {
+        self.freeze()
+    }
+
     fn wipe_out_frozen_data(
         &self,
         snapshot: &Snapshot,
